@@ -30,6 +30,9 @@ func ruleNum(c *Ctx) {
 		return
 	}
 	l := c.L
+	for _, lb := range c.bodies() {
+		lb.textProvenance(l)
+	}
 	// (ii) convertNumber
 	if cn := b.method(b.Codec, "decodeState", "convertNumber"); cn == nil {
 		l.add("R-NUM", "codec", "anchor convertNumber", "", Undecided, "(*decodeState).convertNumber not found", false)
